@@ -113,6 +113,24 @@ Proof.
     assert (0 < snd p) by lia. pose proof (occ_max_bound occ p Hin H0). lia.
 Qed.
 
+Lemma occ_next_beyond occ t : occ_next occ <= t -> occ_mem t occ = false /\ forall z, occ_meets t z occ = false.
+Proof.
+  unfold occ_next. destruct (filter (fun p => 0 <? snd p) occ) as [|q r] eqn:F.
+  - intros _.
+    assert (N : forall p, In p occ -> snd p <= 0).
+    { intros p Hin. destruct (Z_lt_le_dec 0 (snd p)) as [H|H]; [|exact H].
+      assert (X : In p (filter (fun p => 0 <? snd p) occ)) by (apply filter_In; split; [assumption | lia]).
+      rewrite F in X. destruct X. }
+    split; [|intros z].
+    + destruct (occ_mem t occ) eqn:E; [|reflexivity]. unfold occ_mem in E. apply existsb_exists in E as [p [Hin Hp]].
+      pose proof (N p Hin). lia.
+    + destruct (occ_meets t z occ) eqn:E; [|reflexivity]. unfold occ_meets in E. apply existsb_exists in E as [p [Hin Hp]].
+      pose proof (N p Hin). lia.
+  - intros H. apply occ_beyond. lia.
+Qed.
+Lemma occ_next_nil : occ_next [] = 0.
+Proof. reflexivity. Qed.
+
 (* --------------------------------------------------------------------------------------- log, children *)
 
 Lemma is_placed_lookup i l : is_placed i l = false <-> lookup_area i l = None.
@@ -274,10 +292,10 @@ Section Flow.
   Proof.
     intros Hpos N2 V2. unfold second_placement. destruct dense.
     - intros H. apply dense_track_result in H as [H1 H2]. split; [exact H2|]. apply occupied_sound; assumption.
-    - assert (K : forall pl, occ_max (occupied colflow fp ps) + 1 <= fst pl -> 1 <= snd pl -> Some pl = Some sp ->
+    - assert (K : forall pl, occ_next (occupied colflow fp ps) <= fst pl -> 1 <= snd pl -> Some pl = Some sp ->
                   1 <= snd sp /\ intersect_with_children (mk_area colflow (fst fp) (snd fp) (fst sp) (snd sp)) ps = false).
       { intros pl H1 H2 H. inversion H; subst. split; [exact H2|]. apply occupied_sound; try assumption.
-        apply occ_beyond. lia. }
+        apply occ_next_beyond. lia. }
       destruct ss as [|n|n].
       + apply K; [|apply pl_line_start_size].
         destruct se as [|m|m]; [| discriminate |]; cbn in V2; unfold pl_line_start, norm, or1; split_ifs; cbn [fst]; lia.
@@ -1433,10 +1451,49 @@ Example grid_span_creates_tracks :
   grid_place 3 2 false true [it_ GAuto GAuto (GSpan 3) GAuto] = Ok ([Some (0, 0, 1, 3)], (0, 3, 0, 3)).
 Proof. split; vm_compute; reflexivity. Qed.
 
-(* F-c  an item locked to a row that is otherwise empty is put on the SECOND column: `max(occupied or [0]) + 1` *)
-Theorem grid_locked_item_skips_first_cell :
-  grid_place 3 2 false false [it_ GAuto GAuto (GLine 1) GAuto] = Ok ([Some (1, 0, 1, 1)], (0, 3, 0, 2)).
-Proof. vm_compute. reflexivity. Qed.
+(* fixed in /repo (F244): css-grid 8.5 step 2, sparse packing.  An item locked to a row (column) is placed on the other
+   axis right after the last track occupied in its rows (columns) - on the first line when they hold nothing - with
+   the span its placement properties give *)
+Lemma sparse_end_exact n track : 1 <= n ->
+  forall fuel e, e <= track + n -> track + n - e < Z.of_nat fuel -> sparse_end fuel (GSpan n) track e = Some (track, n).
+Proof.
+  intros Hn. induction fuel as [|f IH]; intros e He Hb; [lia|]. cbn.
+  assert (E : pl_line_end (GSpan n) (e + 1) = (e - n, n)).
+  { unfold pl_line_end, norm, or1. split_ifs; f_equal; lia. }
+  rewrite E. cbn [fst]. destruct (Z.leb_spec track (e - n)).
+  - do 2 f_equal. lia.
+  - apply IH; lia.
+Qed.
+
+Theorem grid_locked_sparse_position (colflow : bool) (fp : Z * Z) (ss se : gline) (ps : list area) :
+  nonline ss = true -> nonline se = true -> gline_valid ss = true -> gline_valid se = true ->
+  second_placement colflow false fp ss se ps = Some (occ_next (occupied colflow fp ps), auto_size ss se).
+Proof.
+  intros N1 N2 V1 V2. unfold second_placement. set (t := occ_next _).
+  destruct ss as [|n|n]; [|discriminate|].
+  - destruct se as [|m|m]; [|discriminate|]; cbn in V2; unfold pl_line_start, norm, or1, auto_size; split_ifs;
+      do 2 f_equal; lia.
+  - cbn in V1. unfold auto_size. apply sparse_end_exact; unfold sparse_fuel, get_span, or1; split_ifs; lia.
+Qed.
+
+(* when no placed area meets the rows (columns) of the item, that is the first line *)
+Theorem grid_locked_sparse_empty (colflow : bool) (fp : Z * Z) (ss se : gline) (ps : list area) :
+  nonline ss = true -> nonline se = true -> gline_valid ss = true -> gline_valid se = true ->
+  (forall a, In a ps -> intersect (fst (first_of colflow a)) (snd (first_of colflow a)) (fst fp) (snd fp) = false) ->
+  second_placement colflow false fp ss se ps = Some (0, auto_size ss se).
+Proof.
+  intros N1 N2 V1 V2 H. rewrite grid_locked_sparse_position by assumption.
+  replace (occupied colflow fp ps) with (@nil (Z * Z)); [reflexivity|].
+  unfold occupied. induction ps as [|a ps IH]; [reflexivity|]. cbn [filter].
+  rewrite (H a (or_introl eq_refl)). apply IH. intros b Hb. apply H. right. exact Hb.
+Qed.
+
+(* the witness of F244: `grid-row: 1` alone in a 3 x 2 grid is in the first column (it was in the second) *)
+Theorem grid_locked_item_first_cell :
+  grid_place 3 2 false false [it_ GAuto GAuto (GLine 1) GAuto] = Ok ([Some (0, 0, 1, 1)], (0, 3, 0, 2)) /\
+  grid_place 3 2 false false [it_ GAuto GAuto (GLine 2) GAuto] = Ok ([Some (0, 1, 1, 1)], (0, 3, 0, 2)) /\
+  grid_place 3 2 false false [it_ (GSpan 2) GAuto (GLine 2) GAuto] = Ok ([Some (0, 1, 2, 1)], (0, 3, 0, 2)).
+Proof. repeat split; vm_compute; reflexivity. Qed.
 
 (* fixed in /repo (F70/F71): sparse mode, an item whose flow axis is `span n` and whose other axis is a line number
    computes its end line from cursor_first: it is placed, alone or after another item *)
